@@ -43,6 +43,8 @@ def applyEvents (o : RxOut) : List (Ev Pkg) → RxOut
 def runPackets : Rx Pkg → RxOut → List String → Option (Rx Pkg × RxOut)
   | rx, o, [] => some (rx, o)
   | rx, o, t :: ts =>
+    -- `snd`: the client sends a message at this point; sending touches nothing on the receive side
+    if t == "snd" then runPackets rx o ts else
     match t.splitOn ":" with
     | ["H", ty] | ["h", ty] =>   -- H: header-only packet with the EOM status; it is not queued, so the status is irrelevant
       match ty.toNat? with
